@@ -30,7 +30,7 @@ TARGETS = [
     "sigma.conversion.base:Backend.convert",
 ]
 BOUNDS = {
-    "documents": "K = 4 (quick) / 5 (thorough) documents: d0, d1 plain rules; d2.. correlation rules (or a plain unrelated rule when their reference set is empty) referring to any subset of the earlier documents, by name (even index) or id (odd index); each correlation's generate flag symbolic; optionally one reference to a missing rule",
+    "documents": "K = 4 (quick) / 5 (thorough) documents: d0, d1 plain rules; d2.. correlation rules (or a plain unrelated rule when their reference set is empty) referring to any subset of the earlier documents, by name (even index) or id (odd index); each correlation's generate flag symbolic; optionally one reference to a missing rule (a name, or with INTREF=1 an integer)",
     "orders": "all K! permutations (symbolic selector)",
     "load paths": "from_dicts, from_yaml (one multi-document stream), merge of two sub-collections split at every inner position (quick: merge only with generate off / no missing reference), load_ruleset over two YAML files split at every inner position (real files in a scratch directory; quick: two reference shapes, generate off)",
     "outside": "more than 5 documents; load_ruleset's directory recursion and callbacks",
@@ -60,7 +60,8 @@ def make_docs(k: int, refs, gens, missing: int):
         else:
             names = [(f"rule{j}" if j % 2 == 0 else UUIDS[j]) for j in refs[i]]
             if missing == i:
-                names.append("nope")
+                # INTREF=1: the dangling reference is an (unquoted YAML) integer - it must not be taken as a position
+                names.append(1 if P("INTREF", 0) else "nope")
             multi = len(names) > 1
             if multi and P("EXT", 0):
                 # extended condition: the references exist only in the condition expression (no 'rules' list)
@@ -177,7 +178,7 @@ def check(k, refs, gens, missing, perm, path, split) -> bool:
     got = outcome([docs[i] for i in perm], path, split)
     has_missing = missing >= 2 and bool(refs[missing])
     if has_missing:
-        return got == ("load-error", "SigmaRuleNotFoundError") and canon == got
+        return got == ("load-error", "SigmaCorrelationRuleError" if P("INTREF", 0) else "SigmaRuleNotFoundError") and canon == got
     if got[0] != "ok" or canon[0] != "ok":
         return False
     if not got[1] or not canon[1]:
@@ -253,6 +254,11 @@ def c09_order(r2: int, r3: int, r4: int, g2: bool, g3: bool, g4: bool, miss: int
     return fin(ok)
 
 
+def c09_concrete_intref() -> bool:
+    """Witness: documents 0..3, document 3 refers to rule 1 and to the integer 1; orders (0,1,2,3) and (1,0,2,3)."""
+    return check(4, [[], [], [], [1]], [False] * 5, 3, (0, 1, 2, 3), 0, 0) and check(4, [[], [], [], [1]], [False] * 5, 3, (1, 0, 3, 2), 0, 0)
+
+
 def c09_concrete(k: int, refs_csv: str, gens_csv: str, perm_csv: str, path: int, split: int) -> bool:
     """Concrete-instance form: refs '0;0,1;2' for documents 2.. ; gens '1;0;1' ; perm '3,2,0,1'."""
     refs = [[], []] + [[int(x) for x in part.split(",") if x != ""] for part in refs_csv.split(";")]
@@ -270,6 +276,7 @@ OBLIGATIONS = (
     + [Ob("c09_order", {"K": 4, "NPERM": 24, "PATH": 2, "R3": r, "LITE": 1}, 600) for r in range(8)]
     + [Ob("c09_order", {"K": 4, "NPERM": 24, "PATH": 0, "R3": r, "EXT": 1, "LITE": 1}, 600) for r in (3, 5, 6, 7)]
     + [Ob("c09_order", {"K": 4, "NPERM": 24, "PATH": 3, "R3": r, "LITE": 1}, 600) for r in (1, 6)]
+    + [Ob("c09_order", {"K": 4, "NPERM": 24, "PATH": 0, "R3": r, "INTREF": 1}, 600) for r in (1, 6)]
     + [Ob("c09_order", {"K": 4, "NPERM": 24, "PATH": 3, "R3": r}, 3000, tier="thorough") for r in range(8)]
     + [Ob("c09_order", {"K": 4, "NPERM": 24, "PATH": p, "R3": r, "EXT": 1}, 1800, tier="thorough") for p in (0, 1, 2) for r in (3, 5, 6, 7)]
     + [Ob("c09_order", {"K": 4, "NPERM": 24, "PATH": 2, "R3": r}, 3000, tier="thorough") for r in range(8)]
